@@ -1364,7 +1364,7 @@ JNP = {
     'multiply': lambda a, b: asarr(a) * asarr(b), 'add': lambda a, b: asarr(a) + asarr(b), 'divide': lambda a, b: asarr(a) / asarr(b),
     'square': lambda a: asarr(a) * asarr(a), 'expand_dims': lambda a, ax: np.expand_dims(asarr(a), ax),
     'sin': unary('sin'), 'cos': unary('cos'), 'tanh': unary('tanh'), 'arctanh': unary('arctanh'), 'log': unary('log'), 'exp': unary('exp'), 'log1p': lambda x, *a, **k: elemwise(lambda v: unary('log')(1 + Rat.lift(v)), x), 'expm1': lambda x, *a, **k: elemwise(lambda v: unary('exp')(Rat.lift(v)) - 1, x),
-    'sqrt': unary('sqrt'), 'abs': unary('abs'), 'sign': unary('sign'), 'arccos': unary('arccos'), 'arcsin': unary('arcsin'), 'arctan': unary('arctan'), 'tan': unary('tan'), 'floor': unary('floor'), 'isnan': lambda x: elemwise(lambda v: False if Rat.lift(v).is_const() else uf('isnan', v), x), 'isinf': unary('isinf'), 'isfinite': lambda x: elemwise(lambda v: True if Rat.lift(v).is_const() else uf('isfinite', v), x), 'arctan2': lambda a, b: elemwise(_arctan2, a, b), 'logical_and': lambda a, b: asarr(a) * asarr(b), 'logical_not': lambda a: 1 - asarr(a), 'logical_or': lambda a, b: asarr(a) + asarr(b) - asarr(a) * asarr(b), 'repeat': lambda a, n, axis=None: np.repeat(asarr(a), n, axis=axis), 'transpose': lambda a, *ax: np.transpose(asarr(a), *ax), 'outer': lambda a, b: np.outer(asarr(a), asarr(b)), 'trace': lambda a: np.trace(asarr(a)), 'full': lambda shape, v, **k: np.full(shape if isinstance(shape, tuple) else (shape,), None, dtype=object) * 0 + Rat.lift(v) if False else _full(shape, v), 'any': lambda x, axis=None, keepdims=False, **k: _keepdims(_any(x, axis), axis, keepdims), 'all': lambda x, axis=None, keepdims=False, **k: _keepdims(_all(x, axis), axis, keepdims),
+    'sqrt': unary('sqrt'), 'abs': unary('abs'), 'sign': unary('sign'), 'arccos': unary('arccos'), 'arcsin': unary('arcsin'), 'arctan': unary('arctan'), 'tan': unary('tan'), 'floor': unary('floor'), 'isnan': lambda x: elemwise(lambda v: False if Rat.lift(v).is_const() else uf('isnan', v), x), 'isinf': unary('isinf'), 'isfinite': lambda x: elemwise(lambda v: True if Rat.lift(v).is_const() else uf('isfinite', v), x), 'arctan2': lambda a, b: elemwise(_arctan2, a, b), 'logical_and': lambda a, b: asarr(a) * asarr(b), 'logical_not': lambda a: 1 - asarr(a), 'logical_or': lambda a, b: asarr(a) + asarr(b) - asarr(a) * asarr(b), 'repeat': lambda a, n, axis=None: np.repeat(asarr(a), n, axis=axis), 'resize': lambda a, shape: np.resize(asarr(a), shape if isinstance(shape, tuple) else (shape,)), 'transpose': lambda a, *ax: np.transpose(asarr(a), *ax), 'outer': lambda a, b: np.outer(asarr(a), asarr(b)), 'trace': lambda a: np.trace(asarr(a)), 'full': lambda shape, v, **k: np.full(shape if isinstance(shape, tuple) else (shape,), None, dtype=object) * 0 + Rat.lift(v) if False else _full(shape, v), 'any': lambda x, axis=None, keepdims=False, **k: _keepdims(_any(x, axis), axis, keepdims), 'all': lambda x, axis=None, keepdims=False, **k: _keepdims(_all(x, axis), axis, keepdims),
     'maximum': lambda a, b: elemwise(lambda x, y: _minmax('max', x, y), a, b),
     'minimum': lambda a, b: elemwise(lambda x, y: _minmax('min', x, y), a, b),
     'roll': lambda a, shift, axis=None: np.roll(asarr(a), toint(shift), axis=axis),
@@ -1483,6 +1483,8 @@ def _any(x, axis=None):
         b = _concrete_bools(x)
         if b is not None:
             return any(b)
+        if x.size == 1 and _is_boolpoly(x.ravel()[0]):
+            return x.ravel()[0]      # any() of a single boolean is that boolean
         return uf('any', x)
     moved = np.moveaxis(x, axis, -1)
     out = np.empty(moved.shape[:-1], dtype=object)
